@@ -100,6 +100,20 @@ fn decode_ntriples_literal(term: &str) -> Option<(String, &str)> {
     None
 }
 
+/// Lexical form under which the loaders store a double-quoted literal token: the
+/// unescaped value, `value@lang` for a language-tagged literal; a datatype is not kept.
+/// `None` if `term` is not a well-formed literal token.
+fn stored_literal_form(term: &str) -> Option<String> {
+    let (value, rest) = decode_ntriples_literal(term)?;
+    if rest.is_empty() || rest.starts_with("^^") {
+        Some(value)
+    } else if rest.starts_with('@') {
+        Some(format!("{value}{rest}"))
+    } else {
+        None
+    }
+}
+
 /// Returns an N3 line without its trailing `# comment`.  A `#` inside an IRI
 /// reference (`<http://example.org/ns#term>`) or inside a string literal does not
 /// start a comment.
@@ -1786,8 +1800,11 @@ impl SparqlDatabase {
             term.trim_start_matches('<')
                 .trim_end_matches('>')
                 .to_string()
+        } else if let Some(literal) = stored_literal_form(term) {
+            // A literal is stored in the same lexical form as by the other loaders.
+            literal
         } else if term.starts_with('"') {
-            // It's a literal, possibly with a datatype or language tag
+            // Not a well-formed double-quoted literal: keep it as written
             if let Some(pos) = term.rfind('"') {
                 let literal = &term[..=pos]; // Include the closing quote
                 let rest = &term[pos + 1..]; // After the closing quote
